@@ -6,6 +6,34 @@ LATE = {
  "C01-C": "rescaled and near-unit lattice points (every direction at several lengths within 1e-3 of 1)",
  "C02-D": "purity histories: expected values first, then an uninterrupted call sequence on one buffer mutated in place",
  "C05-D": "pairings outermost, one shared bit-identical state evaluated first and last on every joint",
+ "C03-E": "in-place histories in C03: every rotation-vector routine is called on one buffer that is overwritten between calls (and on a view that is scaled in place) and must return exactly what it returns for a fresh array",
+ "C03-F": "the quaternion tangent maps' derivatives with `normalize=False` (QuatKernel.tla `dTun`, `dTi`); the kernel's large-ratio points are replayed under C03 too",
+ "C07-E": "consecutive records of one element at the same configuration with other velocities (lattice records) and `la_c(q, -u)` right after `la_c(q, u)` on Revolute joints",
+ "C07-F": "Revolute laws on oblique joint bases and between two moving bodies; the rate of the angle and of the energy along the motion by central differences (all three axes)",
+ "C08-E": "Revolute cases with frames as partners: (`rigid`, `rframe`), (`rframe`, `rigid`), (`tframe`, `rigid`)",
+ "C09-E": "history `used_then_reset` in ForceLawAssembly.tla: the assembled system is evaluated with the joint turned forward and back beyond its initial angle, then `System.reset()`",
+ "C11-E": "history: a fresh rod is first asked element by element with explicit element numbers at both ends of every element, then nodal interpolation is checked at every node, then the elements again",
+ "C12-E": "second pass over all lattice cases with four long-lived argument arrays that are overwritten in place from case to case (nothing else is called in between)",
+ "C13-E": "live meshes of one degree on different partitions are asked alternately for the same element index at fresh points",
+ "C13-F": "the tables a `Mesh1D` precomputes (`qp`, `wp`, `N`, `N_xi`, Gauss and Lobatto) on every lookup partition: points inside their element, weights, composite exactness, the element's Lagrange basis",
+ "C14-F": "every matrix method of the scatter table is called with `format` in coo / csr / csc / array and compared with the dense reference",
+ "C15-E": "a dense block arrives in one of eight memory layouts (C, Fortran, transposed / strided / reversed / offset views, integer dtype)",
+ "C15-F": "Coo.tla: the nested container the caller still holds (`kid`), `PokeKid`, `KidIndependent`; every sequence of up to three writes of {nested, dense} x {all, identity array, 1:, 0} replayed with the child kept alive",
+ "C16-F": "a third re-initialisation with every ball lifted off the plane (contacts that carried load are open)",
+ "C17-F": "half of the random systems carry an inertia tensor with products of inertia (not given in principal axes)",
+ "C18-E": "scene kind `inhomogeneous`: balls with unequal principal inertias at oblique orientations, spinning and sliding obliquely",
+ "C19-E": "system kind `top_from_rest`: three different principal inertias, spherical joint with an oblique lever, released from rest",
+ "C19-F": "every second system is run to a final time that is no multiple of the step (there and back over the same duration)",
+ "C20-E": "TimeGrid.tla `LongRuns`: 1000 .. 20000 steps with the final time just before / on / just after a grid point (ticks of 1e-6); grids at construction and a real 1000-step run",
+ "C20-F": "a save / load session: load, modify the loaded object, load again, overwrite under another spelling of the path (str / Path / relative), load again",
+ "C21-E": "failures that need no injection: a static problem without equilibrium solved with the pseudo-inverse linear solvers; independent observers re-evaluate a helper's criterion at the returned point (site `unmet` in SolverRun.tla)",
+ "C21-F": "a fast-spinning body with spherical inertia under DualStormerVerlet (only the kinematic loop is hard), watched by the same observers",
+ "C22-E": "the momentum helper is also started far away from the fixed point (10^2 .. 10^5)",
+ "C24-E": "system `shaken_support`: a link hinged to a frame with prescribed translation and rocking",
+ "C24-F": "system `spinning_bar_coarse_output`: the joint turns by more than a quarter turn between two stored instants",
+ "C25-F": "frames with time-dependent orientation as partners of the joint: rate of the tracked angle along a motion on the joint manifold against `l_dot`",
+ "C27-F": "the prox parameter in other units (W * 2^k, m * 2^j: heavy bodies, tiny force directions), exact in binary floating point",
+ "C28-F": "floating joints with a relative angular velocity (given in the joint frame; such cases have no displacement, where the readings of the linear part coincide)",
  "C05-E": "records at rational orientations that are not axis-aligned: joint bases from integer quaternions such as (2,1,0,0), rigid bodies at such orientations with integer inertial spin; positions, bases and every derivative direction carry a common denominator of their own and the kernel stays in integers",
  "C05-F": "the same generic records (off the joint manifold, relative orientation not a quarter turn)",
  "C06-E": "planes whose constant basis is a rational rotation that is not axis-aligned (`tilted`), the basis entering the kernel as F / s; bodies at rational non-octahedral orientations (`rigid*`)",
